@@ -507,6 +507,46 @@ func engineDeterminism(ctx *Ctx) {
 			}
 			os.RemoveAll(h.Dir)
 		}
+		// CLI, from inside a project: the working directory is part of the configuration. Directories that are several kinds of
+		// project at once (their boost tables may disagree on a word), the shipped database, requests that name the words such
+		// tables hold - glued to punctuation, so that they stay plain search terms; eight runs each
+		if ctx.Wtf != "" && d%8 == 0 && ctx.ShippedPath() != "" {
+			h := NewHome(filepath.Join(ctx.Scratch, fmt.Sprintf("detproj%d", d)))
+			sets := [][]string{{"Dockerfile", "go.mod"}, {"CMakeLists.txt", "Makefile"}, {"package.json", "Dockerfile", "Makefile"}, {"Cargo.toml", "Makefile", ".git"},
+				{"requirements.txt", "Dockerfile", "main.tf"}, {"pom.xml", "Dockerfile", "kustomization.yaml", "Makefile"}, {"go.mod", "package.json", "Cargo.toml", "requirements.txt", "Dockerfile", "Makefile"}}
+			set := sets[(d/8+ctx.Shard)%len(sets)]
+			for _, m := range set {
+				if m == ".git" {
+					os.MkdirAll(filepath.Join(h.Cwd, m), 0o755)
+				} else {
+					os.WriteFile(filepath.Join(h.Cwd, m), []byte("{}\n"), 0o644)
+				}
+			}
+			rp := vlib.NewRand(ctx.Seed, ctx.Shard, fmt.Sprintf("detproj%d", d)) // a stream of its own: the other cases keep theirs
+			devWords := []string{"build", "make", "test", "run", "install", "deploy", "image", "container", "compile", "package", "clean", "docker", "module", "dependencies", "target", "init"}
+			for k := 0; k < 4; k++ {
+				w1, w2 := devWords[rp.Intn(len(devWords))], devWords[rp.Intn(len(devWords))]
+				q := []string{"how to do a docker " + w1 + ".", w1 + "-" + w2 + " the project", "project " + w1 + ", " + w2 + ".", w1 + " " + w2}[k]
+				args := []string{"--database", ctx.ShippedPath(), "--format", "json", "-v", "--no-color", "--limit", "8", "--all-platforms", "--", q}
+				var blocks []string
+				for i := 0; i < 8; i++ {
+					res := h.Wtf(ctx.Wtf, nil, args...)
+					b, _, _, _ := JSONBlock(res.Stdout)
+					blocks = append(blocks, b)
+				}
+				ctx.R.Eval(1)
+				ctx.R.Path("cli-runs-repeated-inside-a-project-of-several-kinds", 1)
+				for i := 1; i < len(blocks); i++ {
+					if blocks[i] != blocks[0] {
+						ctx.R.Violate(vlib.Violation{Property: "C02", Clause: "cli", Path: "wtf --format json -v/inside-a-project",
+							Detail:  fmt.Sprintf("result blocks of run 1 and run %d differ (working directory holds %v)", i+1, set),
+							Witness: map[string]interface{}{"args": args, "markers": set, "run1": vlib.Trunc(blocks[0], 1500), "other": vlib.Trunc(blocks[i], 1500)}})
+						break
+					}
+				}
+			}
+			os.RemoveAll(filepath.Dir(h.Dir))
+		}
 		if !strings.HasPrefix(dbName, "shipped") {
 			os.Remove(dbp)
 		}
